@@ -26,11 +26,24 @@ def main():
     ran = []
     ok = True
     try:
-        os.makedirs(os.path.join(wt, 'tests'), exist_ok=True)
-        shutil.copy(demo, os.path.join(wt, 'tests', 'seed_demo.rs'))
-        rc, out = sh('cargo test --offline --test seed_demo 2>&1 | tail -5', cwd=wt)
-        base_pass = 'test result: ok' in out
-        ran.append('unchanged tree: cargo test --test seed_demo -> %s' % ('pass' if base_pass else 'FAIL'))
+        democrate = os.path.join(src, 'demo')
+        if os.path.isdir(democrate):
+            # compile-time property: the demonstration is a tiny crate that must build / fail to build
+            dc = wt + '_demo'
+            shutil.rmtree(dc, ignore_errors=True)
+            shutil.copytree(democrate, dc, ignore=shutil.ignore_patterns('target', 'Cargo.lock'))
+            t = open(os.path.join(dc, 'Cargo.toml')).read()
+            t = re.sub(r'path = "[^"]*"', 'path = "%s"' % wt, t)
+            open(os.path.join(dc, 'Cargo.toml'), 'w').write(t)
+            rc, out = sh('cargo check --offline 2>&1 | tail -3', cwd=dc)
+            base_pass = 'Finished' in out
+            ran.append('unchanged tree: cargo check of the demo crate -> %s' % ('builds' if base_pass else 'FAILS'))
+        else:
+            os.makedirs(os.path.join(wt, 'tests'), exist_ok=True)
+            shutil.copy(demo, os.path.join(wt, 'tests', 'seed_demo.rs'))
+            rc, out = sh('cargo test --offline --test seed_demo 2>&1 | tail -5', cwd=wt)
+            base_pass = 'test result: ok' in out
+            ran.append('unchanged tree: cargo test --test seed_demo -> %s' % ('pass' if base_pass else 'FAIL'))
         rc, out = sh('git apply %s' % patch, cwd=wt)
         if rc != 0:
             ran.append('git apply failed: ' + out[-300:])
@@ -38,9 +51,19 @@ def main():
         rc, out = sh('cargo test --offline --lib 2>&1 | grep "test result" | head -1', cwd=wt)
         suite = '32 passed; 0 failed' in out
         ran.append('patched tree: cargo test --lib -> %s' % out.strip())
-        rc, out = sh('cargo test --offline --test seed_demo 2>&1 | tail -8', cwd=wt)
-        demo_fails = 'test result: FAILED' in out or 'panicked' in out
-        ran.append('patched tree: cargo test --test seed_demo -> %s' % ('fails (as required)' if demo_fails else 'PASSES'))
+        if os.path.isdir(democrate):
+            rc, out = sh('cargo check --offline 2>&1 | grep -c "^error"', cwd=dc)
+            demo_fails = out.strip() not in ('', '0')
+            ran.append('patched tree: cargo check of the demo crate -> %s' % ('fails to build (as required)' if demo_fails else 'BUILDS'))
+            shutil.rmtree(dc, ignore_errors=True)
+            if os.path.isdir(democrate):
+                d2 = os.path.join('/verif/seeded', name, 'demo')
+                shutil.rmtree(d2, ignore_errors=True)
+                shutil.copytree(democrate, d2, ignore=shutil.ignore_patterns('target', 'Cargo.lock'))
+        else:
+            rc, out = sh('cargo test --offline --test seed_demo 2>&1 | tail -8', cwd=wt)
+            demo_fails = 'test result: FAILED' in out or 'panicked' in out
+            ran.append('patched tree: cargo test --test seed_demo -> %s' % ('fails (as required)' if demo_fails else 'PASSES'))
         ok = ok and base_pass and suite and demo_fails
     finally:
         sh('git -C /repo worktree remove --force %s' % wt)
